@@ -133,38 +133,8 @@ def generate(repo):
              "first component is not ''.join(aa)")
         return 'Definition returns_joined_and_alphabet : bool := true.'
 
-    def positions():
-        g = find_func(tree, 'get_indexed_complexity_vector', 'SequenceComplexity')
-        b = strip_doc(g.body)
-        pro = b[:-2]
-        src = [' '.join(ast.unparse(x).split()) for x in b]
-        need(src[-2] == 'indices = np.arange(index_start, index_end, spacing, dtype=int)' and
-             src[-1] == 'return np.vstack((indices, complexity_vector))', 'positions: arange/vstack tail')
-        at = {'len(complexity_vector)': 'K', 'seq_len': 'N'}
-        defs = []
-        for var in ('spacing', 'index_start', 'index_end'):
-            defs.append('Definition g_%s (N K : Z) : Z :=\n %s.' % (var, Sym(ZBackend(), at).block_result(pro, {}, var)))
-        return '\n'.join(defs)
-
-    def loops():
-        def W(x):
-            return ' '.join(ast.unparse(x).split())
-
-        def has(fn, *frags):
-            src = W(find_func(tree, fn, 'SequenceComplexity'))
-            for fr in frags:
-                need(' '.join(fr.split()) in src, '%s: missing `%s`' % (fn, fr[:50]))
-        # CWF, LC and LZW are tied semantically (g_minipy -> Props/Tie/minipy_complexity_tie.v)
-        for fn, core in (('get_WF_complexity', 'self.CWF(reduced_sequence, alphabet, windowSize, stepSize)'),
-                         ('get_LC_complexity', 'self.LC(reduced_sequence, alphabet, windowSize, stepSize, wordSize)'),
-                         ('get_LZW_complexity', 'self.LZW(reduced_sequence, alphabet, windowSize, stepSize)')):
-            has(fn, 'reduced_sequence, alphabet = self.reduce_alphabet(sequence, alphabetSize, userAlphabet)', core,
-                'return self.get_indexed_complexity_vector(complexity_vector, len(sequence))')
-        return 'Definition g_complexity_loops_ok : bool := true.'
-
+    # get_indexed_complexity_vector and get_WF/LC/LZW_complexity are tied semantically (g_minipy -> Props/Tie/minipy_cxglue_tie.v)
     out.add('allowed_sizes', allowed)
-    out.add('positions', positions)
-    out.add('loops', loops)
     out.add('reduce', cascade)
     out.add('return_shape', order)
     return out
